@@ -6,13 +6,12 @@ change (harness/translate/cellctor.py `validate`).  `bitsToBytes` (Basic.lean) =
 `toBytesBE?` = `int.to_bytes(w, 'big')`, `xs ++ [x]` = `xs.append(x)`, a hash object = the bytes fed to it so far.
 -/
 import TonVerif.Basic
+import TonVerif.PyBytes
 
 namespace TonVerif.Py
 
-/-- `xs[i]` for any Python int `i`: a negative index counts from the end; `none` = IndexError. -/
-def getI? {α : Type} (xs : List α) (i : Int) : Option α :=
-  if 0 ≤ i then xs[i.toNat]?
-  else if i.natAbs ≤ xs.length then xs[xs.length - i.natAbs]? else none
+/- `xs[i]` for any Python int `i` (a negative index counts from the end; `none` = IndexError) is `Py.getI?` of
+   PyBytes.lean, shared by the bytes / loop translators and this one. -/
 
 /-- `bits.fill()` of a bitarray: zero bits are appended up to the next multiple of 8. -/
 def bitsFill (bits : Bits) : Bits := bits ++ List.replicate ((8 - bits.length % 8) % 8) false
